@@ -466,3 +466,59 @@ for _top in ('subexpression', 'function'):
         cases=[Case('"," flushes the pending operand and becomes exactly one argument separator inside a function (a union operator elsewhere); an immediately following comma adds one placeholder for the omitted argument',
                     lambda *a: True, _comma_step(_top))],
         call=_c, native_call=_n, cross_key=_key, timeout_ms=20000))
+
+
+def _blank_step(formula, offset, token, s, p, r, e, out):
+    """a run of blanks / line breaks: one white-space token, the pending operand flushed, the scan stops at the first non-blank"""
+    if out.kind != 'ret':
+        return False
+    o = out.value
+    em, nonempty = _flush(o, token)
+    kinds = [(t[1], t[2]) for t in em]
+    conj = [spec.eq(o['token'], ''), o['offset'] > offset, o['offset'] <= S.length(formula)]
+    if kinds == [('operand', ''), ('white-space', '')]:
+        conj += [nonempty, spec.eq(em[0][0], token)]
+    elif kinds == [('white-space', '')]:
+        conj.append(Not(nonempty))
+    else:
+        return False
+    # where the scan stops: at the end of the text or at a character that is not a blank
+    stop = _char(formula, o['offset'])
+    at_end = spec.eq(o['offset'], S.length(formula))
+    conj.append(Or(at_end, And(Not(spec.eq(stop, ' ')), Not(spec.eq(stop, '\n')))))
+    return And(*conj)
+
+
+UNITS.append(Unit(
+    id='C02/tokenizer.getTokens/white_space_step', target=TARGET, inputs=_state(['A1 +B1', 'SUM( 1,2)', 'a  b', 'x\n+y', '1 ']),
+    requires=_normal_req([' ', '\n']),
+    cases=[Case('a run of blanks or line breaks flushes the pending operand and becomes exactly ONE white-space token; the scan stops at the first non-blank character (loop contract on the inner loop)',
+                lambda *a: True, _blank_step)],
+    call=_step_call, native_call=_step_native, cross_key=_key, timeout_ms=30000))
+
+
+def _percent_step(formula, offset, token, s, p, r, e, out):
+    if out.kind != 'ret':
+        return False
+    o = out.value
+    em = o['emitted']
+    kinds = [(t[1], t[2]) for t in em]
+    nonempty = S.length(token) > 0
+    conj = [spec.eq(o['offset'], offset + 1), spec.eq(o['token'], '')]
+    if kinds == [('operand', '')]:
+        # the pending number becomes ONE operand worth a hundredth of it
+        conj += [nonempty, spec.eq(em[0][0], M.FLOAT_OF(token) / 100) if is_sym(token) else spec.eq(em[0][0], float(token) / 100)]
+    elif kinds == [('operator-infix', ''), ('operand', '')]:
+        conj += [Not(nonempty), em[0][0] == '*', em[1][0] == 0.01]
+    else:
+        return False
+    return And(*conj)
+
+
+UNITS.append(Unit(
+    id='C02/tokenizer.getTokens/percent_step', target=TARGET, inputs=[('formula', Prim('str', domain=['50%', '2.5%+1', '(1)%', '7%'])), ('offset', Prim('int', domain=[1, 2, 3])),
+                                                                    ('token', Prim('str', domain=['50', '2.5', '', '7']))] + _FLAGS,
+    requires=lambda formula, offset, token, *f: And(_normal_req(['%'])(formula, offset, token, *f), Or(spec.eq(S.length(token), 0), M.FLOAT_OK(token))),
+    cases=[Case('"%" after a number turns that number into ONE operand worth a hundredth of it; after anything else it multiplies by 0.01; one character consumed',
+                lambda *a: True, _percent_step)],
+    call=_step_call, native_call=_step_native, cross_key=_key, timeout_ms=20000))
